@@ -18,6 +18,8 @@ pub(super) struct SourceParser<'a> {
   builtin_classes: HashSet<PStr>,
   class_source_map: HashMap<PStr, ModuleReference>,
   available_tparams: HashSet<PStr>,
+  #[cfg(samlang_verif)]
+  verif_peeks_without_consume: u32,
 }
 
 impl<'a> SourceParser<'a> {
@@ -40,10 +42,20 @@ impl<'a> SourceParser<'a> {
       builtin_classes,
       class_source_map: HashMap::new(),
       available_tparams: HashSet::new(),
+      #[cfg(samlang_verif)]
+      verif_peeks_without_consume: 0,
     }
   }
 
   fn peek(&mut self) -> Token {
+    #[cfg(samlang_verif)]
+    {
+      // Verification hook: turn "the parser loops without consuming input" into a deterministic panic.
+      self.verif_peeks_without_consume += 1;
+      if self.verif_peeks_without_consume > 1_000_000 {
+        panic!("samlang_verif: parser made no progress (1000000 peeks without consume)");
+      }
+    }
     if let Some(token) = self.peeked {
       return token;
     }
@@ -76,6 +88,10 @@ impl<'a> SourceParser<'a> {
 
   #[must_use]
   fn consume(&mut self) -> Vec<Comment> {
+    #[cfg(samlang_verif)]
+    {
+      self.verif_peeks_without_consume = 0;
+    }
     self.peek();
     let comments = std::mem::take(&mut self.pending_comments);
     let Token(loc, _) = self.peeked.take().unwrap();
